@@ -17,11 +17,13 @@ import (
 	"io"
 	"net/http"
 	"strings"
+	"time"
 	"unsafe"
 
 	"github.com/google/inverting-proxy/agent/utils"
 	"github.com/google/inverting-proxy/zz_verif/vh"
 	"github.com/google/inverting-proxy/zz_verif/vs"
+	"github.com/google/inverting-proxy/zz_verif/vtime"
 	"github.com/google/inverting-proxy/zz_verif/vx"
 )
 
@@ -86,6 +88,8 @@ func (sc script) expected() expect {
 		switch op.kind {
 		case "H":
 			cur.Add(op.k, op.v)
+		case "I1xx":
+			// interim response: its fields are not part of the final response
 		case "WH":
 			if op.status >= 200 && !wrote {
 				e.status = op.status
@@ -115,6 +119,14 @@ func (sc script) run(w http.ResponseWriter, afterWrite func(total int)) {
 		switch op.kind {
 		case "H":
 			w.Header().Add(op.k, op.v)
+		case "I1xx":
+			// exactly what httputil.ReverseProxy does for an interim response
+			h := w.Header()
+			h.Add(op.k, op.v)
+			w.WriteHeader(op.status)
+			for k := range h {
+				delete(h, k)
+			}
 		case "WH":
 			w.WriteHeader(op.status)
 		case "W":
@@ -148,11 +160,12 @@ type attemptLog struct {
 }
 
 type proxyRT struct {
-	plan     []attempt
-	log      []*attemptLog
-	seen     int // payload bytes observed so far (C05)
-	onSeen   unsafe.Pointer
-	chunkBuf int
+	plan       []attempt
+	log        []*attemptLog
+	seen       int // payload bytes observed so far (C05)
+	onProgress func(seen int)
+	onSeen     unsafe.Pointer
+	chunkBuf   int
 }
 
 type nopBody struct{ io.Reader }
@@ -179,6 +192,9 @@ func (p *proxyRT) RoundTrip(req *http.Request) (*http.Response, error) {
 		vs.Touch(unsafe.Pointer(p))
 		l.got = append(l.got, buf[:n]...)
 		p.seen += bytes.Count(buf[:n], []byte{payloadByte})
+		if p.onProgress != nil {
+			p.onProgress(p.seen)
+		}
 		if err == io.EOF {
 			l.eof = true
 			return false
@@ -311,7 +327,11 @@ func compare(got []byte, e expect, x *vx.Exec) string {
 	}
 	hdr := resp.Header.Clone()
 	hdr.Del("Trailer")
-	if a, b := vh.HeaderString(hdr), vh.HeaderString(e.header); a != b {
+	// framing is not part of the comparison: the upload is always re-framed as chunked
+	hdr.Del("Content-Length")
+	eh := e.header.Clone()
+	eh.Del("Content-Length")
+	if a, b := vh.HeaderString(hdr), vh.HeaderString(eh); a != b {
 		x.Violations = append(x.Violations, fmt.Sprintf("HEADER: uploaded header {%s}, handler produced {%s}", a, b))
 	}
 	if len(body) != e.body || bytes.Count(body, []byte{payloadByte}) != len(body) {
@@ -327,9 +347,20 @@ func compare(got []byte, e expect, x *vx.Exec) string {
 }
 
 // c05 scenario: lock-step producer.
-func c05Scenario(sizes []int, pb int) vx.Scenario {
+func c05Scenario(sizes []int, pb int) vx.Scenario { return c05ScenarioCL(sizes, pb, false) }
+
+func c05ScenarioCL(sizes []int, pb int, announce bool) vx.Scenario {
 	name := fmt.Sprintf("c05/%v", sizes)
 	var ops []hop
+	if announce {
+		// the backend announced the length up front and still produces the body piecemeal
+		total := 0
+		for _, n := range sizes {
+			total += n
+		}
+		name += "/content-length"
+		ops = append(ops, hop{kind: "H", k: "Content-Length", v: fmt.Sprint(total)}, hop{kind: "H", k: "Content-Type", v: "text/plain"})
+	}
 	ops = append(ops, hop{kind: "WH", status: 200})
 	for _, n := range sizes {
 		ops = append(ops, hop{kind: "W", n: n})
@@ -365,6 +396,70 @@ func c05Scenario(sizes []int, pb int) vx.Scenario {
 				if out.closed && len(rt.log) == 1 {
 					x.Obs += " " + compare(rt.log[0].got, sc.expected(), &x)
 				}
+				return x
+			}
+		}}
+}
+
+// c05Trickle: the backend flushes a small chunk every `gap` of virtual time without waiting for
+// anybody; every chunk must have reached the proxy endpoint within 100 ms (virtual) of its flush.
+func c05Trickle(chunks, size int, gap time.Duration) vx.Scenario {
+	name := fmt.Sprintf("c05/trickle/%dx%d/every%v", chunks, size, gap)
+	return vx.Scenario{Name: name, PB: 0, Single: true, MaxSteps: 2000000, MaxTime: time.Hour,
+		Setup: func(s *vs.Sched) func(*vs.Result) vx.Exec {
+			rt := &proxyRT{}
+			out := &outcome{}
+			flushed := make([]time.Duration, 0, chunks) // virtual time at which the first k*size bytes had been written
+			seenAt := map[int]time.Duration{}           // payload byte count -> virtual time it was first observed
+			rt.onProgress = func(n int) {
+				if _, ok := seenAt[n]; !ok {
+					seenAt[n] = s.Now()
+				}
+			}
+			s.Thread("handler", func() {
+				w, err := utils.NewResponseForwarder(&http.Client{Transport: rt}, "http://proxy/", "b", "id1", newReq(), nil)
+				if err != nil {
+					panic(err)
+				}
+				w.WriteHeader(200)
+				for i := 0; i < chunks; i++ {
+					w.Write(payload(size))
+					flushed = append(flushed, s.Now())
+					vtime.Sleep(gap)
+				}
+				out.handlerRan = true
+				out.closeErr = w.Close()
+				out.closed = true
+			})
+			return func(r *vs.Result) vx.Exec {
+				var x vx.Exec
+				base(r, &x)
+				if !out.closed && len(r.Panics) == 0 {
+					x.Violations = append(x.Violations, "STALL: the handler never finished: "+blocked(r))
+					return x
+				}
+				worst := time.Duration(0)
+				for i, t := range flushed {
+					need := (i + 1) * size
+					// first observation time of at least `need` payload bytes
+					best := time.Duration(-1)
+					for n, at := range seenAt {
+						if n >= need && (best < 0 || at < best) {
+							best = at
+						}
+					}
+					if best < 0 {
+						x.Violations = append(x.Violations, fmt.Sprintf("HELDBACK: chunk %d of %s never reached the proxy endpoint", i+1, name))
+						break
+					}
+					if lat := best - t; lat > worst {
+						worst = lat
+					}
+				}
+				if worst > 100*time.Millisecond {
+					x.Violations = append(x.Violations, fmt.Sprintf("HELDBACK: a chunk flushed by the backend reached the proxy endpoint only %v (virtual) later while the backend kept producing (%s)", worst, name))
+				}
+				x.Obs = fmt.Sprintf("%s worst latency %v", name, worst)
 				return x
 			}
 		}}
@@ -537,6 +632,10 @@ func c03Scripts(all bool) []script {
 	for _, ws := range [][]int{{}, {1}} {
 		out = append(out, script{name: fmt.Sprintf("interim103-w%v", ws), ops: append([]hop{{kind: "H", k: "Link", v: "</x>"}, {kind: "WH", status: 103}, {kind: "H", k: "X-A", v: "1"}, {kind: "WH", status: 200}}, writes(ws)...)})
 	}
+	for _, ws := range [][]int{{}, {1}, {5000}} {
+		out = append(out, script{name: fmt.Sprintf("interim-rp103-w%v", ws), ops: append([]hop{{kind: "I1xx", status: 103, k: "Link", v: "</style.css>; rel=preload"}, {kind: "H", k: "X-A", v: "1"}, {kind: "H", k: "Link", v: "</final>"}, {kind: "WH", status: 200}}, writes(ws)...)})
+		out = append(out, script{name: fmt.Sprintf("interim-rp103x2-w%v", ws), ops: append([]hop{{kind: "I1xx", status: 103, k: "Link", v: "</a>"}, {kind: "I1xx", status: 103, k: "X-Interim-Only", v: "x"}, {kind: "H", k: "X-A", v: "1"}, {kind: "WH", status: 404}}, writes(ws)...)})
+	}
 	out = append(out, script{name: "interim100+103-w[2]", ops: append([]hop{{kind: "WH", status: 100}, {kind: "WH", status: 103}, {kind: "H", k: "X-A", v: "1"}, {kind: "WH", status: 201}}, writes([]int{2})...)})
 	return out
 }
@@ -581,6 +680,10 @@ func scenarios(tier string) []vx.Scenario {
 		for _, s := range sets {
 			out = append(out, c05Scenario(s, pb))
 		}
+		for _, s := range [][]int{{1, 1}, {5, 10, 3}, {1000, 1000}, {2047, 1}, {2048, 1, 1}, {4000, 200}} {
+			out = append(out, c05ScenarioCL(s, pb, true))
+		}
+		out = append(out, c05Trickle(300, 8, time.Millisecond), c05Trickle(40, 1, 5*time.Millisecond), c05Trickle(200, 300, 2*time.Millisecond))
 	case "C06":
 		out = c06Scenarios(thorough)
 	}
